@@ -267,7 +267,10 @@ spif_mbuff_init_from_fd(spif_mbuff_t self, int fd)
         self->len = 0;
         self->buff = (spif_byteptr_t) MALLOC(self->size);
 
-        for (p = self->buff; (cnt = read(fd, p, buff_inc)) > 0; p = self->buff + self->len) {
+        for (p = self->buff; ((cnt = read(fd, p, buff_inc)) > 0) || ((cnt < 0) && (errno == EINTR)); p = self->buff + self->len) {
+            if (cnt < 0) {
+                continue;
+            }
             self->len += cnt;
             if (self->size - self->len < (spif_memidx_t) buff_inc) {
                 self->size = self->len + buff_inc;
